@@ -663,6 +663,7 @@ int main (void) {
   }
   armed = 0;
   check_quarantine ();
+  for (int i = 0; i < MAXCX; i++) api_cleanup_files (&cxs[i].api);
   for (int i = 0; i < MAXCX; i++)
     if (cxs[i].n_events)
       oprintf ("X STATS ctx %d events %lu alloc %lu free %lu realloc %lu map %lu protect %lu codebytes %lu", i,
